@@ -365,6 +365,21 @@ def run(chk):
             runs.append(('dedup', NX, exs, r))
             nd += 1
         chk.extra['dedup_runs'] = nd
+    # --ignore-length: Content-Length does not delimit (read until the close), the other framings are untouched
+    nil = 0
+    for (origin, NX, exs, r0) in list(runs):
+        if nil >= (150 if quick else 2500):
+            break
+        if NX != 1 or origin not in ('random', 'tlc'):
+            continue
+        cm = exs[0]['cm']
+        if not (cm['te'] or cm['sclose'] or cm['method'] == 'HEAD' or cm['status'] in (204, 304)):
+            continue            # (a length-delimited message on a connection the server keeps open: the client would wait)
+        r = Run(exs, warc=warc, ignore_length=True)
+        r.execute()
+        runs.append(('ignore-length', NX, exs, r))
+        nil += 1
+    chk.extra['ignore_length_runs'] = nil
     T['random_executed'] = time.time() - t00
     ngen = 0
     for NX, fut in gen_futs:
@@ -390,7 +405,7 @@ def run(chk):
             continue
         seen.add(key)
         chk.distinct.add(hash(key))
-        groups.setdefault(NX, []).append((origin, exs, r, mt, None if (getattr(r, 'dedup', None) or any(ex.get('post') is not None for ex in exs)) else strict_trace(r)))
+        groups.setdefault(NX, []).append((origin, exs, r, mt, None if (getattr(r, 'dedup', None) or getattr(r, 'ignore_length', False) or any(ex.get('post') is not None for ex in exs)) else strict_trace(r)))
 
     # one TLC job per chunk of traces, several at a time
     CH = 600 if quick else 1200
@@ -459,7 +474,7 @@ def run(chk):
                               % (clause, x, origin, ' | '.join(describe(ex) for ex in exs),
                                  json.dumps([{k: v for k, v in ev.items() if k not in ('srv',)}
                                              for ev in r.ev if ev['e'] in ('done', 'stall')])[:400]),
-                              {'warc': warc, 'dedup': list(getattr(r, 'dedup', [])), 'exchanges': exchange_json(exs), 'clause': clause, 'exchange': x,
+                              {'warc': warc, 'ignore_length': bool(getattr(r, 'ignore_length', False)), 'dedup': list(getattr(r, 'dedup', [])), 'exchanges': exchange_json(exs), 'clause': clause, 'exchange': x,
                                'origin': origin, 'errors': r.error_detail})
             elif stt is None:
                 n_unabs += 1
@@ -563,7 +578,7 @@ def replay(chk, path):
     obj = json.load(open(path))
     rp = obj['replay']
     exs = exchange_from_json(rp['exchanges'])
-    r = Run(exs, warc=rp.get('warc', False), dedup=rp.get('dedup', ()))
+    r = Run(exs, warc=rp.get('warc', False), dedup=rp.get('dedup', ()), ignore_length=rp.get('ignore_length', False))
     r.execute()
     for ex in exs:
         print('MESSAGE', describe(ex), 'pieces', ex['pieces'][:30])
